@@ -162,11 +162,57 @@ class AliasSelf(ast.NodeTransformer):
         return fn
 
 
-TRANSFORMS = {"T7": AliasSelf, "T1": Rename, "T2": Commute, "T3": FlipCmp, "T4": Ident, "T5": LogLines, "T6": ReturnViaLocal}
+class FlipIf(ast.NodeTransformer):
+    """`if c: A else: B` becomes `if not c: B else: A`; an `if` without else gets a `pass` branch first"""
+
+    def visit_If(self, n):
+        self.generic_visit(n)
+        test = n.test.operand if isinstance(n.test, ast.UnaryOp) and isinstance(n.test.op, ast.Not) else ast.UnaryOp(op=ast.Not(), operand=n.test)
+        return ast.If(test=test, body=n.orelse or [ast.Pass()], orelse=n.body)
+
+
+SIGS: dict[str, list[str] | None] = {}
+
+
+def _collect_sigs(root):
+    SIGS.clear()
+    for f in sorted((root / "src" / "mdpax").rglob("*.py")):
+        for c in ast.walk(ast.parse(f.read_text())):
+            if isinstance(c, ast.ClassDef):
+                for fn in c.body:
+                    if isinstance(fn, ast.FunctionDef) and fn.args.args and fn.args.args[0].arg == "self":
+                        if fn.args.vararg or fn.args.kwarg or fn.args.posonlyargs or fn.decorator_list:
+                            SIGS[fn.name] = None
+                            continue
+                        names = [a.arg for a in fn.args.args[1:]]
+                        if fn.name in SIGS and SIGS[fn.name] != names:
+                            SIGS[fn.name] = None
+                        else:
+                            SIGS.setdefault(fn.name, names)
+
+
+class KeywordArgs(ast.NodeTransformer):
+    """`self.m(a, b)` becomes `self.m(x=a, y=b)` with the parameter names of m (all definitions of m agree)"""
+
+    def visit_Call(self, n):
+        self.generic_visit(n)
+        f = n.func
+        if isinstance(f, ast.Attribute) and isinstance(f.value, ast.Name) and f.value.id == "self" and n.args \
+                and not any(isinstance(a, ast.Starred) for a in n.args):
+            names = SIGS.get(f.attr)
+            if names and len(n.args) <= len(names) and not ({k.arg for k in n.keywords} & set(names[:len(n.args)])):
+                n.keywords = [ast.keyword(arg=names[i], value=a) for i, a in enumerate(n.args)] + n.keywords
+                n.args = []
+        return n
+
+
+TRANSFORMS = {"T8": FlipIf, "T9": KeywordArgs, "T7": AliasSelf, "T1": Rename, "T2": Commute, "T3": FlipCmp, "T4": Ident, "T5": LogLines, "T6": ReturnViaLocal}
 
 
 def overlay_for(tname, root):
     ov = {}
+    if tname == "T9":
+        _collect_sigs(root)
     for f in sorted((root / "src" / "mdpax").rglob("*.py")):
         tree = ast.parse(f.read_text())
         tree = TRANSFORMS[tname]().visit(tree)
